@@ -139,3 +139,12 @@ From XV Require Gen.T9text Proofs.Text_C04.
 Theorem C04_hand_modelled_functions_read_as_validated : Text_C04.all_frozen.
 Proof. exact Text_C04.all_frozen_holds. Qed.
 Print Assumptions C04_hand_modelled_functions_read_as_validated.
+
+(* the stored argsort re-orders a transform by GATHERING (as the fitted results were re-ordered); scattering with the same indices is the inverse permutation
+   and gives other columns on a cycle of length three *)
+From Coq Require Reals.
+From XV Require Base.RInst Proofs.C04_gather.
+Theorem C04_scatter_with_the_argsort_refuted :
+  msel_cols RInst.OR 1 C04_gather.inv3 [[Rdefinitions.IZR 10; Rdefinitions.IZR 20; Rdefinitions.IZR 30]] <> msel_cols RInst.OR 1 [1; 2; 0]%nat [[Rdefinitions.IZR 10; Rdefinitions.IZR 20; Rdefinitions.IZR 30]].
+Proof. exact C04_gather.scatter_refuted. Qed.
+Print Assumptions C04_scatter_with_the_argsort_refuted.
